@@ -312,7 +312,38 @@ def wl_boundary(ctx, rng, i):
                 ctx.count("selector_on_falsy_value")
 
 
+def sco20_slots():
+    m = M.model("2.0")
+    out = []
+    for t in m.types_of_class("SCO"):
+        for prof in ("min", "max", "random", "random"):
+            out.append((t, None, prof))
+        for e in M.EXT_HOSTS.get(t, []):
+            for prof in ("min", "max", "random"):
+                out.append((t, e, prof))
+    return out
+
+
+SCO20 = sco20_slots()
+
+
+def wl_sco20(ctx, rng, i):
+    """2.0 observables and their predefined extensions, which only exist as observed-data elements"""
+    t, ext, prof = SCO20[i % len(SCO20)]
+    g = gen_for(rng, "2.0", i)
+    od = g.make("observed-data", "min", granular=False)
+    cont = {}
+    cont["0"] = {"type": t}
+    cont["0"] = g.sco20(t, "min-noref" if prof == "min" else prof, cont)
+    if ext:
+        cont["0"]["extensions"] = {ext: g.fill(g.m.extensions[ext], ext, prof, 1, cont)}
+    od["objects"] = cont
+    judge(ctx, od, "2.0", embedding="observed-data-element", tags=("sco-2.0:" + t + (("+" + ext) if ext else ""),))
+    ctx.see("2.0 observables", t + (("+" + ext) if ext else ""))
+
+
 WORKLOADS = [
+    Workload("sco20", wl_sco20, quick=lambda: len(SCO20) * 2, thorough=lambda: len(SCO20) * 60),
     Workload("profiles", wl_profiles, quick=lambda: len(TYPES) * 32, thorough=lambda: len(TYPES) * 600),
     Workload("pairs", wl_pairs, quick=lambda: len(PAIRS), thorough=lambda: len(PAIRS) * 4),
     Workload("vocab", wl_vocab, quick=lambda: len(VOCAB), thorough=lambda: len(VOCAB), exhaustive=True),
